@@ -129,6 +129,13 @@ def check(eng, res):
     sub2 = type(res)(res.prop)
     c02.branch_order(eng, sub2)
     res.obligations += sub2.obligations
+    # the token scanner decides which characters are atoms and in which order (shared with C02)
+    from . import c02 as _c02
+
+    res.doc("R-SCAN-ORDER", "token scanner: pending text is flushed before every atom and at the end; the cursor drops exactly the consumed prefix (shared with C02)")
+    res.doc("R-ATOM-TABLE", "the scanner's atom tables are the organic subset (with aromatic forms) and Cl/Br, two letters first (shared with C02)")
+    _c02.scan_order(eng, res)
+    _c02.atom_table(eng, res)
     res.assumptions += ["CombineMols / AddBond / deepcopy behave as documented", "induction over attach_other: |V| grows by the other side's nodes, |E| by its edges + 1"]
     res.not_decided += [
         "chemical sanitisation succeeding, hydrogen counts of unbracketed atoms, mass additivity, identity of charges / isotopes with the token (RDKit semantics on runtime values)",
